@@ -210,8 +210,17 @@ def handler_clauses(repo):
                 found = n
         if found is None or n_calls != 1:
             raise Unsupported("%s: the body read is not the single statement of one try block" % fn)
-        if found not in f.body:
-            raise Unsupported("%s: the try around the body read is nested in another statement" % fn)
+        # an enclosing try could take the exception first (an enclosing with / if does not change the mapping;
+        # the order of parse and lock is the business of the skeleton, not of this table)
+        parents = {}
+        for n in ast.walk(f):
+            for ch in ast.iter_child_nodes(n):
+                parents[id(ch)] = n
+        p = parents.get(id(found))
+        while p is not None and p is not f:
+            if isinstance(p, (ast.Try, ast.For, ast.While, ast.FunctionDef, ast.Lambda)):
+                raise Unsupported("%s: the try around the body read is nested in a %s" % (fn, type(p).__name__))
+            p = parents.get(id(p))
         res[fn[3:]] = clause_list(found.handlers, fn)
     return res
 
